@@ -118,8 +118,12 @@ uint8_t get_reg(struct instr *instrc, struct operand *m, int r) {
       m->reg = NO_BASE;
       instrc->no_base = true;
     }
-    if (m->reg == NO_BASE)
+    if (m->reg == NO_BASE) {
+      // without a base the displacement is always 32 bits wide
+      if (instrc->mod_disp == MOD8)
+        instrc->mem_offset = (uint32_t)(int8_t)instrc->mem_offset;
       instrc->mod_disp = 0;
+    }
     else {
       // the index became the base: it needs what encode_mem does for a base
       unsigned int reg_opd = m->reg & MODE_MASK;
